@@ -204,8 +204,8 @@ def run(ctx):
             calls = []
             for e in r['trace'][:r['pos']]:
                 if e.get('ev') == 'step':
-                    calls.append(dict(fmt=e['fmt'], args=e['args'], err=e['err'], out=e['out']))
-            calls.append(dict(fmt=r['info']['fmt'], args=r['info']['args'], err=r['info']['err'], out=r['info']['out']))
+                    calls.append(dict(fmt=e['fmt'], args=e['args'], err=e['err'], out=e['out'], cf=e.get('cf', [])))
+            calls.append(dict(r['info'], fam='k'))
             ctx.add_failure('C09/format-cache/sequence-dependent',
                             f"call {r['trace'][r['pos']].get('k')} of a recorded run: sprintf result differs from the specification "
                             f"although the same call alone in a fresh interpreter agrees",
